@@ -540,7 +540,9 @@ def trace_variant(ctx):
                     flat[idx]["q"] += 5
             else:
                 idx = next((i for i, r in enumerate(flat) if r["ev"] == "end"), None)
-                flat[idx]["too"] += 1
+                # +1 can be explainable (a point still in the inbox may or may not have been processed as
+                # too old when the trace ends); a count no behaviour can reach must be rejected
+                flat[idx]["too"] += 1000
             if kind == "drop-out":
                 del flat[idx]
                 # the hole shows at the latest at the end event of that trace
